@@ -507,8 +507,14 @@ func main() {
 		"violations":  unlisted,
 	}
 	b, _ := json.MarshalIndent(ev, "", " ")
-	os.MkdirAll(filepath.Join(verifDir, "evidence"), 0o755)
-	if err := os.WriteFile(filepath.Join(verifDir, "evidence", prop+".json"), b, 0o644); err != nil {
+	evDir := filepath.Join(verifDir, "evidence")
+	if prop == "SIMTEST" {
+		// (not a property of the library: the simulator's self-check keeps
+		// its report apart from the per-property evidence)
+		evDir = filepath.Join(verifDir, "selfcheck")
+	}
+	os.MkdirAll(evDir, 0o755)
+	if err := os.WriteFile(filepath.Join(evDir, prop+".json"), b, 0o644); err != nil {
 		trouble("%v", err)
 	}
 	fmt.Printf("%s %s: %d simulated runs (%d enumerated, %d random), %d distinct non-trivial, %d unlisted violation signature(s), %d known, self-test: %s, %.1fs\n",
